@@ -235,6 +235,25 @@ def other_observations(tier):
         qr.terminal(out=buf, **tkw)
         obs.append({'family': 'cli_terminal', 'exit': status if isinstance(status, int) else 99, 'stdout_sha': hashlib.sha256(out.encode()).hexdigest(),
                     'terminal_sha': hashlib.sha256(buf.getvalue().encode()).hexdigest(), '_what': f'segno {flags} <content>'})
+    # the terminal output must not depend on the environment: terminal geometry given through COLUMNS / LINES, symbols narrower and
+    # wider than the terminal (versions 1, 5, 11, 20 at 80 and 40 columns)
+    saved_env = {k: os.environ.get(k) for k in ('COLUMNS', 'LINES')}
+    try:
+        for cols in ('80', '40', '200', '0'):
+            os.environ['COLUMNS'], os.environ['LINES'] = cols, '24'
+            for ver in (1, 5, 11, 20):
+                for flags, tkw in (([], {}), (['--border', '1'], {'border': 1}), (['--compact'], {'compact': True})):
+                    status, out, err, tb = run_cli(['--version', str(ver)] + flags + [CONTENT])
+                    buf = io.StringIO()
+                    segno.make(CONTENT, version=ver).terminal(out=buf, **tkw)
+                    obs.append({'family': 'cli_terminal', 'exit': status if isinstance(status, int) else 99, 'stdout_sha': hashlib.sha256(out.encode()).hexdigest(),
+                                'terminal_sha': hashlib.sha256(buf.getvalue().encode()).hexdigest(), '_what': f'COLUMNS={cols} segno --version {ver} {flags} <content>'})
+    finally:
+        for k, v in saved_env.items():
+            if v is None:
+                os.environ.pop(k, None)
+            else:
+                os.environ[k] = v
     # CLI versus API on a version 7 symbol (version information modules exist) for the colour-capable kinds
     qr7 = segno.make(CONTENT, version=7, micro=False)
     for kind in ('png', 'svg', 'ppm', 'eps', 'pdf'):
@@ -336,11 +355,11 @@ def subprocess_observations():
 CLI_VALUES = {'version': {'int': '5', 'micro_upper': 'M4', 'micro_lower': 'm4', 'big': '41', 'junk': 'x'},
               'error': {'L': 'L', 'lower_m': 'm', 'H': 'H', 'dash': '-', 'bad': 'x'},
               'mode': {'byte': 'byte', 'upper_numeric': 'NUMERIC', 'bad': 'foo'},
-              'pattern': {'two': '2', 'nine': '9', 'junk': 'x'}, 'encoding': {'utf8': 'utf-8'}, 'count': {'two': '2', 'junk': 'x'}}
+              'pattern': {'zero': '0', 'two': '2', 'nine': '9', 'junk': 'x'}, 'encoding': {'utf8': 'utf-8'}, 'count': {'two': '2', 'junk': 'x'}}
 CLI_CONTENT = {'digits': ['0123456789'], 'two_words': ['Hello', 'World'], 'text': ['Segno']}
 API_VALUES = {'version': {'none': None, 'int': '5', 'micro_upper': 'M4', 'micro_lower': 'm4', 'big': '41', 'junk': 'x'},
               'error': {'none': None, 'L': 'L', 'M': 'M', 'H': 'H'}, 'mode': {'none': None, 'byte': 'byte', 'numeric': 'numeric'},
-              'mask': {'none': None, 'two': 2, 'nine': 9}, 'encoding': {'none': None, 'utf8': 'utf-8'}, 'count': {'none': None, 'two': 2},
+              'mask': {'none': None, 'zero': 0, 'two': 2, 'nine': 9}, 'encoding': {'none': None, 'utf8': 'utf-8'}, 'count': {'none': None, 'two': 2},
               'micro': {'none': None, 'true': True, 'false': False}}
 
 
